@@ -106,3 +106,12 @@ func zzH_C20_diffdb_views_concurrent(t *zzT) {
 	}
 	t.Reach("end")
 }
+
+// C12 "reads through the staged store always return … all staged writes applied" when two prefix views are
+// used from two goroutines (the store is documented as shared through views): same obligation as
+// zzH_C20_diffdb_views_concurrent, registered under C12 as well (seed C12-6 dropped the shared mutex around
+// the storage read of Get: a staged write of the same key completed in that window is overwritten).
+//
+//zz:opt loop=64 sched=2 join=1 race=1 racereport=1 schedule=1 blockfree=0
+//zz:thorough sched=3 budget=1800s
+func zzH_C12_views_concurrent(t *zzT) { zzH_C20_diffdb_views_concurrent(t) }
